@@ -609,6 +609,10 @@ static const char* reb_string_for_particle_error(int err){
         return "Cannot pass both (omega, pomega) together.";
     if (err==14)
         return "Can only pass one longitude/anomaly in the set (f, M, E, l, theta, T).";
+    if (err==15)
+        return "Semi-major axis cannot be zero.";
+    if (err==16)
+        return "Pal coordinates (h,k,ix,iy) can only describe bound orbits: need a > 0 and h*h + k*k < 1.";
     return "An unknown error occured during reb_simulation_add_fmt().";
 
 }
@@ -857,6 +861,10 @@ static struct reb_particle reb_particle_from_fmt_errV(struct reb_simulation* r, 
             *err = 12; // e too high 
             return reb_particle_nan();
         }
+        if (!(a > 0.) || !((h*h + k*k) < 1.0)){
+            *err = 16; // unbound orbits cannot be expressed in Pal coordinates
+            return reb_particle_nan();
+        }
         struct reb_particle particle = reb_particle_from_pal(r->G, primary, m, a, l, k, h, ix, iy);
         particle.r = radius;
         particle.hash = hash;
@@ -924,6 +932,10 @@ static struct reb_particle reb_particle_from_fmt_errV(struct reb_simulation* r, 
 struct reb_particle reb_particle_from_orbit_err(double G, struct reb_particle primary, double m, double a, double e, double inc, double Omega, double omega, double f, int* err){
     if(e == 1.){
         *err = 1; 		// Can't initialize a radial orbit with orbital elements.
+        return reb_particle_nan();
+    }
+    if(a == 0.){
+        *err = 15; 		// Semi-major axis cannot be zero.
         return reb_particle_nan();
     }
     if(e < 0.){
